@@ -319,8 +319,20 @@ func init() {
 					r.States++
 					r.Transitions++
 					r.Nontrivial++
-					g, _ := cli.AppsV1().StatefulSets(c18NS).Get(context.TODO(), "rep1", metav1.GetOptions{})
+					// read the object store directly: the scripted failure must not hit the harness' own read
+					// (a ChangeScale that does not issue the failing call leaves it pending)
+					injected := failed
+					failed = true
+					g, gerr := cli.AppsV1().StatefulSets(c18NS).Get(context.TODO(), "rep1", metav1.GetOptions{})
+					if gerr != nil || g == nil {
+						chk.Fatalf("HARNESS: cannot read the StatefulSet back: %v", gerr)
+					}
 					after := listClaims(cli)
+					if !injected {
+						// the run never issued the call that was to fail: nothing to judge here (a ChangeScale that
+						// does not re-read the set is judged by the stale-listing cases)
+						continue
+					}
 					if err == nil && !conflict409 {
 						viol("C18:api-error-swallowed", "scale", fmt.Sprintf("ChangeScale(%d) from %d returned no error although %s failed", nw, old, failVerb), cs)
 					}
